@@ -97,10 +97,19 @@ def main():
         meta['demo_without_patch_rc'] = [r[0] for r in base]
         # ---- apply the change
         rc, out = sh(['git', 'apply', os.path.join(vdir, 'patch.diff')], cwd=wt)
-        if rc != 0:   # the tree moved on since the change was written (later fix: commits): try a 3-way merge
+        if rc != 0:   # the tree moved on since the change was written (later fix: commits)
+            # 1. a hand-rebased copy of the same change (patch.rebased-on-<commit>.diff), newest first
+            for rb in sorted([f for f in os.listdir(vdir) if f.startswith('patch.rebased-on-')], reverse=True):
+                rc, out = sh(['git', 'apply', os.path.join(vdir, rb)], cwd=wt)
+                if rc == 0:
+                    meta['patch_rebased'] = rb
+                    break
+        if rc != 0:   # 2. a 3-way merge; conflicts leave the tree untouched
             rc, out = sh(['git', 'apply', '-3', os.path.join(vdir, 'patch.diff')], cwd=wt)
             meta['patch_applied_3way'] = rc == 0
             sh(['git', 'reset', '-q'], cwd=wt)
+            if rc != 0:
+                sh(['git', 'checkout', '--', '.'], cwd=wt)
         meta['patch_applies'] = rc == 0
         if rc != 0:
             print('patch does not apply:', out)
@@ -162,6 +171,8 @@ def main():
         os.makedirs(dst, exist_ok=True)
         if os.path.realpath(vdir) != os.path.realpath(dst):
             shutil.copy(os.path.join(vdir, 'patch.diff'), os.path.join(dst, 'patch.diff'))
+            for rb in [f for f in os.listdir(vdir) if f.startswith('patch.rebased-on-')]:
+                shutil.copy(os.path.join(vdir, rb), os.path.join(dst, rb))
             for d in demos:
                 shutil.copy(os.path.join(vdir, d), os.path.join(dst, d))
         if readme:
